@@ -30,6 +30,7 @@ pub struct Gen<'r> {
     pub used_block_scalar: bool,
     pub max_level: usize,
     pub alias_pct: usize,
+    pub complex_key_pct: usize,
 }
 
 const MB: &[&str] = &["é", "ü", "✓", "漢", "😀", "ß", "Ж", "→"];
@@ -45,6 +46,7 @@ impl<'r> Gen<'r> {
             used_block_scalar: false,
             max_level: 3,
             alias_pct: 22,
+            complex_key_pct: 6,
         }
     }
 
@@ -232,6 +234,24 @@ impl<'r> Gen<'r> {
                 alias_keys.push(name.clone());
                 level = level.max(1);
                 Node::alias(&name)
+            } else if self.rng.below(100) < self.complex_key_pct {
+                // complex key (`? ` in block context): a small collection of fresh scalars
+                let kflow = flow || self.rng.chance(2, 3);
+                let a = self.leaf(true);
+                let mut key = if self.rng.bool() {
+                    let mut items = vec![a];
+                    if self.rng.bool() {
+                        items.push(self.leaf(true));
+                    }
+                    Node::seq(items)
+                } else {
+                    let k = self.key();
+                    Node::map(vec![(k, a)])
+                };
+                if kflow {
+                    key.set_flow(true);
+                }
+                key
             } else {
                 let mut key = self.key();
                 if self.rng.chance(1, 10) {
